@@ -41,9 +41,9 @@ static uint32_t draw_cp(simrt::Rng &r, unsigned mix) {
 void *pool_build(uint64_t seed) {
     Pool *p = new Pool();
     simrt::Rng r; r.seed(simrt::mix(seed, 0xB00, 1));
-    static const unsigned SZ[] = {0, 3, 15, 16, 17, 40, 100, 600, 12, 11};
-    for (unsigned i = 0; i < 14; i++) {
-        unsigned n = SZ[i % 10], mix = i % 3;
+    static const unsigned SZ[] = {0, 3, 15, 16, 17, 40, 100, 600, 12, 11, 0, 3, 15, 16, 260, 300, 700, 1500};      // a third of the pool is long: some paths only run for long text
+    for (unsigned i = 0; i < 18; i++) {
+        unsigned n = SZ[i], mix = i % 3;
         std::u32string sc;
         for (unsigned k = 0; k < n; k++) sc += (char32_t)draw_cp(r, mix);
         ST::string s = ST::string::from_utf32(sc.data(), sc.size());
@@ -76,7 +76,8 @@ uint64_t do_op(const void *pool_, void *priv_, const BOp &op) {
     auto slice = [&](const ST::string &x, unsigned sel) {
         if (x.empty()) return ST::string::from_validated("x", 1);
         size_t a = sel % x.size(); while (a > 0 && ((unsigned char)x.c_str()[a] & 0xC0) == 0x80) --a;
-        size_t b = std::min(x.size(), a + 1 + (sel >> 8) % 4); while (b < x.size() && ((unsigned char)x.c_str()[b] & 0xC0) == 0x80) ++b;
+        static const unsigned NLEN[8] = {1, 2, 3, 4, 1, 9, 17, 33};      // short needles mostly; long ones reach the paths that only run for long needles
+        size_t b = std::min(x.size(), a + NLEN[(sel >> 8) % 8]); while (b < x.size() && ((unsigned char)x.c_str()[b] & 0xC0) == 0x80) ++b;
         return x.substr((ST_ssize_t)a, b - a);
     };
     try {
@@ -134,7 +135,14 @@ uint64_t do_op(const void *pool_, void *priv_, const BOp &op) {
         case 44: { V.buf = P.b8[op.a % P.b8.size()]; hb(h, V.buf); V.buf.allocate(op.c % 40, 'z'); hb(h, V.buf); ST::char_buffer m(std::move(V.buf)); hb(h, m); V.buf = std::move(m); V.buf.clear(); break; }
         case 45: { V.vec = s.split(' '); V.vec.push_back(t); h.u64(V.vec.size()); for (auto &x : V.vec) hs(h, x); V.vec.clear(); break; }
         case 46: { hs(h, ST::string::fill(op.c % 70, 'q')); break; }
-        case 47: { using namespace ST::literals; hs(h, "lit8"_st); hs(h, u"lit16 é"_st); hs(h, U"lit32 \U0001F600"_st); hs(h, L"litw"_st); hb(h, "buf"_stbuf); hs(h, "{}-{}"_stfmt(op.c, s)); break; }
+        case 47: { using namespace ST::literals; hs(h, "lit8"_st); hs(h, u"lit16 é"_st); hs(h, U"lit32 \U0001F600"_st); hs(h, L"litw"_st); hb(h, "buf"_stbuf); hs(h, "{}-{}"_stfmt(op.c, s));
+                   // long literals of every width, different ones in different operations (a literal is a value like any other: nothing may be remembered between two of them)
+                   switch (op.c % 3) {
+                   case 0: hs(h, u"a UTF-16 literal that is longer than sixteen units: €uro"_st); hs(h, U"a UTF-32 literal well beyond the twelve unit limit \U0001F600"_st); hs(h, L"wide literal number zero, also long enough for the heap"_st); hs(h, "a narrow literal of more than sixteen bytes"_st); break;
+                   case 1: hs(h, u"another sixteen-bit literal, different text, still long \u00e9"_st); hs(h, U"second thirty-two bit literal with other contents"_st); hs(h, L"wide literal number one \u20ac and some more text"_st); hs(h, u8"an u8 literal beyond the small size é"_st); break;
+                   default: hs(h, u"third UTF-16 text: quick brown fox jumps"_st); hs(h, U"third UTF-32 text: over the lazy dog"_st); hs(h, L"third wide text: pack my box with five dozen liquor jugs"_st); hb(h, u"sixteen-bit buffer literal, long"_stbuf); hb(h, U"thirty-two bit buffer literal"_stbuf); hb(h, L"wide buffer literal, long enough"_stbuf); break;
+                   }
+                   break; }
         case 48: { ST::string n = slice(s, op.c); size_t max = s.size() ? op.c % s.size() : 0; h.u64((uint64_t)s.find_last(max, n, cs)); h.u64((uint64_t)s.find_last(max, n.c_str(), cs)); h.u64((uint64_t)s.find_last(max / 2, "e")); h.u64((uint64_t)s.find_last(max, 'o', cs)); break; }
         case 49: { hs(h, ST::format("{.3f} {}", std::complex<double>(op.c / 3.0, -(double)op.b), std::complex<float>(1.5f, (float)op.a))); break; }
         case 50: { char out[2048]; h.u64((uint64_t)ST::hex_decode(P.hex[op.a % P.hex.size()], out, sizeof out)); h.u64((uint64_t)ST::base64_decode(P.b64[op.b % P.b64.size()], nullptr, 0)); break; }
